@@ -39,7 +39,7 @@ ASSUMPTIONS = [
 ]
 REQUIRED = {"all": ["figures", "saved_files", "getfig_returns", "phase_markers_checked", "uversky_markers_checked",
                     "multi_marker_figures", "labels_checked", "limits_below_one", "region_points_checked",
-                    "linear_bar_figures", "long_linear_plots", "net_negative_uversky_saves", "complexity_bar_figures", "numpy_coordinate_arguments", "coincident_markers", "near_threshold_large_N_cases"]}
+                    "linear_bar_figures", "long_linear_plots", "net_negative_uversky_saves", "complexity_bar_figures", "numpy_coordinate_arguments", "coincident_markers", "near_threshold_large_N_cases", "figures_after_unclosed_save"]}
 NFIG = {"quick": 640, "thorough": 4000}
 NMAX = {"quick": 40, "thorough": 90}
 LIMS = [1, 1, 0.5, 0.8, 2]
@@ -132,8 +132,11 @@ def cases(tier, seed):
         yield {"k": "fig", "o": rng.randrange(1 << 30), "i": i}
 
 
-def fresh_canvas():
-    _st["plt"].close("all")
+def fresh_canvas(force=False):
+    """A user closes the figure a show(getFig=True) call handed out; after a save_* call the library itself has
+    finished with its figure, so nothing is closed for it: what it left behind would show up in the next figure."""
+    if force or _st.get("last_was_show", True):
+        _st["plt"].close("all")
     _st["saved"][:] = []
 
 
@@ -151,7 +154,7 @@ def judge_regions(case, rep, S):
     rng = gen.sub_rng(0, ID, "regions", N)
     polysets = []
     for lim in [(1, 1), (0.5, 0.5), (0.8, 2), (2, 0.6)]:
-        fresh_canvas()
+        fresh_canvas(force=True)
         o = SP("G" * N)
         ret = o.show_phaseDiagramPlot(xLim=lim[0], yLim=lim[1], getFig=True)
         rep.cnt("figures")
@@ -162,7 +165,8 @@ def judge_regions(case, rep, S):
         polysets.append((lim, [poly_exact(p) for p in snap["polygons"]]))
         if lim[0] < 1 or lim[1] < 1:
             rep.cnt("limits_below_one")
-    fresh_canvas()
+    fresh_canvas(force=True)
+    _st["last_was_show"] = True
     if case.get("near"):
         pairs = gen.near_threshold_compositions(N)
         rep.cnt("near_threshold_large_N_cases")
@@ -249,9 +253,13 @@ def run_entry(rep, S, entry, call, save_path):
     """Call an entry point on a clean canvas; returns the snapshot (or None after reporting)."""
     plt = _st["plt"]
     fresh_canvas()
+    if not _st.get("last_was_show", True):
+        rep.cnt("figures_after_unclosed_save")
+    _st["last_was_show"] = save_path is None
     try:
         ret = call()
     except Exception as e:
+        _st["last_was_show"] = True
         rep.viol("plot_raised", "%s raised %s: %s" % (entry, type(e).__name__, e), sig={"entry": entry, "exception": type(e).__name__})
         return None
     rep.cnt("figures")
@@ -281,7 +289,7 @@ def judge_figure(case, rep, S):
     i = case["i"]
     family = ["obj_phase", "obj_uversky", "mod_single", "mod_multi", "mod_multi2", "linear", "complexity", "composition"][i % 8]
     fmt = "pdf" if rng.random() < 0.7 else "png"
-    path = os.path.join(_st["tmp"], "fig_%d.%s" % (case["o"] % 5, fmt))
+    path = os.path.join(_st["tmp"], ["fig_%d.%s", "my figure %d.%s", "fig\u00e9_%d.%s"][case["o"] % 3] % (case["o"] % 5, fmt))
     save = rng.random() < 0.5
     seq = gen.rand_seq(rng, rng.choice(["idp", "polyampholyte", "polyelectrolyte", "uniform", "neutral_rich"]), lo=5, hi=60)
     rep.distinct((family, save, case["o"]))
